@@ -7,6 +7,7 @@ import (
 	"encoding/json"
 	"fmt"
 	"net/netip"
+	"os"
 	"sort"
 	"testing"
 
@@ -59,8 +60,23 @@ func c10Bitmap(bm []string) []uint32 {
 	return out
 }
 
+// VERIF_C10_PAD=prev: an answer lists its first address repeatedly, so that it has as many records as the answer the same
+// owner had before (a refreshed answer with the same record count but another address set)
+var c10PadPrev = os.Getenv("VERIF_C10_PAD") == "prev"
+var c10PrevCount = map[string]int{}
+
 func c10Cache(key string, bm []string, ips []int) *DnsCache {
 	c := &DnsCache{RouteOwnerKey: key, DomainBitmap: c10Bitmap(bm)}
+	if c10PadPrev && len(ips) > 0 {
+		padded := append([]int(nil), ips...)
+		for len(padded) < c10PrevCount[key] {
+			padded = append(padded, ips[0])
+		}
+		c10PrevCount[key] = len(padded)
+		ips = padded
+	} else {
+		c10PrevCount[key] = len(ips)
+	}
 	for _, a := range ips {
 		ip := c10Addr(a)
 		if a == 0 && len(ips)%2 == 0 {
@@ -107,6 +123,7 @@ func TestVerifC10(t *testing.T) {
 	for bi, b := range bs {
 		res.Case()
 		// fresh tracker and empty kernel table for every history
+		c10PrevCount = map[string]int{}
 		k.core.domainRouting = newDomainRoutingTracker()
 		if err := BpfMapBatchDeleteAll[[4]uint32, bpfDomainRouting](k.objs.DomainRoutingMap); err != nil {
 			t.Fatalf("clearing domain_routing_map: %v", err)
